@@ -5,6 +5,7 @@ CONSTANTS
   Vals <- V2
   CheckKeys <- C7
   MaxOps = 3
+  Ops <- OpsNoCopy
   KeepHist = TRUE
 VIEW view
 ACTION_CONSTRAINT EmitHist
